@@ -6,14 +6,18 @@
     allege  h= rep= acc= id= bh= sig= fee=   <q= c= t= s= v=>          -> res=<code> <q= t= s= v=>
     vote    voter= id= ch= sig= fee=          <q= c= t= s= v=>          -> res=<code> <q= t= s= v=>
     release h= now= days= val= sig= fee=        <q= c= t= s= v=>          -> res=<code> <q= t= s= v=>
-    guard   kind= val=                        <q= c= s=>                -> guard=<frozen|openRequest|pass>
-    begin   h= now= diff= minv= cv=             <r= q= t= s= v=>          -> begun <s=>
-    elect   h= diff= minself= top= pop=       <z= v=>                   -> active=<n> el=<addrs> <v=>
-    tally   h= now= active= o= req= fy= fn= pf= <r= q= t= s= T= E= D= B= U=> -> tallied <q= t= s= T= E= D= B= U=>
+    guard   kind= val= sa=                    <q= c= s= r=>            -> guard=<frozen|openRequest|pass>
+    begin   h= now= diff= minv= cv=           <r= q= t= s= v=>          -> begun <s=>
+    elect   h= minself= top= pop=             <z= v=>                   -> active=<n> el=<addrs> <v=>
+    tally   h= now= active= o= pf=            <r= k= q= t= s= v= T= E= D= B= U=> -> tallied <q= t= s= T= E= D= B= U=>
 
   ids are lower-case hex of the id bytes (`-` = empty id); addresses 40 hex digits.
-  `req fy fn pf` are the values of the float64 / big.Float expressions as computed by the Go
-  runtime (the model is parametric in them: `FloatOps`).
+  `r=` are validator records: those of the previous version for begin / tally; for guard the
+  records whose key is in the committed tree with their current values (`Validators.Iterate`).
+  `k=` (tally) are the validator records as they are when the tally runs.
+  `pf` are the values of the big.Float penalty expression as computed by the Go runtime (the
+  model is parametric in it: `FloatOps`); the `v=` records of a tally line are those left by the
+  election pass of the same EndBlock.
 -/
 import OLP.Alleg.Model
 
@@ -44,9 +48,10 @@ def parseVotes (s : String) : Option (List Vote) :=
     | _ => none
 
 /-- parses the state records of a line; unknown tokens are ignored (they are operation fields) -/
-def parseState (toks : List (String × String)) : Option (State × List (Addr × ValRec) × List (Addr × Susp)) := do
+def parseState (toks : List (String × String)) : Option (State × List (Addr × ValRec) × List (Addr × Susp) × List (Addr × ValRec)) := do
   let mut st := State.empty
   let mut prev : List (Addr × ValRec) := []
+  let mut cur : List (Addr × ValRec) := []
   let mut z : List (Addr × Susp) := []
   for (k, v) in toks do
     let p := v.splitOn "/"
@@ -64,6 +69,7 @@ def parseState (toks : List (String × String)) : Option (State × List (Addr ×
       z := z ++ [(a, ⟨← status.toInt?, ← fh.toInt?, ← fat.toInt?, ← rh.toInt?, ra⟩)]
     | "v", [a, act, h] => st := { st with vstat := st.vstat ++ [(a, ⟨act == "1", ← h.toInt?⟩)] }
     | "r", [a, sa, pw] => prev := prev ++ [(a, ⟨sa, ← pw.toInt?⟩)]
+    | "k", [a, sa, pw] => cur := cur ++ [(a, ⟨sa, ← pw.toInt?⟩)]
     | "T", [a, n] => st := { st with total := st.total ++ [(a, ← n.toInt?)] }
     | "E", [a, d, n] => st := { st with vd := st.vd ++ [((a, d), ← n.toInt?)] }
     | "D", [d, n] => st := { st with de := st.de ++ [(d, ← n.toInt?)] }
@@ -71,7 +77,7 @@ def parseState (toks : List (String × String)) : Option (State × List (Addr ×
     | "B", [n] => st := { st with bounty := ← n.toInt? }
     | "U", [h, a, n] => st := { st with delayed := st.delayed ++ [((← h.toInt?, a), ← n.toInt?)] }
     | _, _ => pure ()
-  return (st, prev, z)
+  return (st, prev, z, cur)
 
 def sortBy {α : Type} (key : α → String) (l : List α) : List α := l.mergeSort fun a b => leS (key a) (key b)
 
@@ -120,15 +126,9 @@ def parseOpts (s : String) (minv diff days : Int) : Option Opts :=
   | some [vp, vd, ap, ad, bp, bd, cp, cd] => some ⟨minv, diff, bp, bd, cp, cd, days, vp, vd, ap, ad⟩
   | _ => none
 
-def bitAt (s : String) (n : Int) : Option Bool :=
-  if n < 0 then none else (s.toList[n.toNat]?).map (· == '1')
-
-/-- the float expressions as evaluated by the Go runtime (tables of the line), the exact reading
-    outside the tables -/
-def floatOps (req : Int) (fy fn : String) (pf : List (String × Int)) : FloatOps where
-  required := fun _ _ => req
-  guiltyGt := fun yes r o => (bitAt fy yes).getD (exactOps.guiltyGt yes r o)
-  innocentGt := fun no r o => (bitAt fn no).getD (exactOps.innocentGt no r o)
+/-- the big.Float penalty as evaluated by the Go runtime (table of the line), the exact reading
+    outside the table -/
+def floatOps (pf : List (String × Int)) : FloatOps where
   penalty := fun stake o => ((pf.find? (·.1 == toString stake)).map (·.2)).getD (exactOps.penalty stake o)
 
 def join (l : List String) : String := " ".intercalate l
@@ -142,7 +142,7 @@ def stepLine (line : String) : String :=
     let kvs := rest.filterMap splitKV
     match parseState kvs with
     | none => "bad-state"
-    | some (st, prev, z) =>
+    | some (st, prev, z, cur) =>
       let out : Option String := do
         match op with
         | "allege" =>
@@ -156,7 +156,7 @@ def stepLine (line : String) : String :=
           let r := txRelease st (← fieldI kvs "days") (← field kvs "val") (← fieldI kvs "h") (← fieldI kvs "now") (fieldB kvs "sig") (fieldB kvs "fee")
           pure (join (s!"res={showRes r.1}" :: showEv r.2))
         | "guard" =>
-          let g := stakingGuard st (← field kvs "kind") (← field kvs "val")
+          let g := stakingGuard st prev (← field kvs "kind") (← field kvs "val") (← field kvs "sa")
           pure ("guard=" ++ (if g == .ok then "pass" else showRes g))
         | "begin" =>
           let o : Opts := ⟨← fieldI kvs "minv", ← fieldI kvs "diff", 0, 1, 0, 1, 0, 0, 1, 0, 1⟩
@@ -166,14 +166,14 @@ def stepLine (line : String) : String :=
         | "elect" =>
           let pop ← parsePairs (← field kvs "pop")
           let h ← fieldI kvs "h"
-          let r := elect (← fieldI kvs "minself") (← fieldI kvs "top") h (malOf h (← fieldI kvs "diff") z) pop st.vstat
+          let r := elect (← fieldI kvs "minself") (← fieldI kvs "top") h (malOf z) pop st.vstat
           let el := if r.elected.isEmpty then "-" else ",".intercalate (sortIds r.elected)
           pure (join (s!"active={r.cnt} el={el}" :: showV r.vstat))
         | "tally" =>
           let o ← parseOpts (← field kvs "o") 0 0 0
           let pf ← parsePairs (← field kvs "pf")
-          let F := floatOps (← fieldI kvs "req") (← field kvs "fy") (← field kvs "fn") pf
-          let env : Env := ⟨← fieldI kvs "h", ← fieldI kvs "now", ← fieldI kvs "active", o, prev⟩
+          let F := floatOps pf
+          let env : Env := ⟨← fieldI kvs "h", ← fieldI kvs "now", ← fieldI kvs "active", o, prev, cur⟩
           let st' := tally F env st
           pure (join ("tallied" :: (showQ st' ++ showT st' ++ showS st'.susp ++ showStake st')))
         | _ => none
